@@ -100,3 +100,8 @@ package xpull
 //@   at call:close#1 set woke:bool = true
 //@   ensures name == protocol.OptionReadQLen && isnil(result) ==> woke
 //@   before call:close#1 assert zq == at("call:Lock#2", s.sizeQ)
+// ---- generated Info contracts (tools/gen_info_contracts.py) ----
+//@ func (*socket).Info
+//@   ensures result.Self == 81 && result.Peer == 80 && result.SelfName == "pull" && result.PeerName == "push"
+//@
+// ---- end generated Info contracts ----
